@@ -104,9 +104,14 @@ func (f *globalMaxInflight) SetState(instance string, requestId int64, current i
 	overflowed := f.add(delta)
 
 	if overflowed > 0 {
-		atomic.AddInt32(&state.count, -delta)
-		f.add(-delta)
-		return false, old, nil
+		if delta > 0 {
+			atomic.AddInt32(&state.count, -delta)
+			f.add(-delta)
+			return false, old, nil
+		}
+		// a report that does not raise the instance's count is always applied,
+		// also while the total is above the limit (e.g. after the limit was lowered)
+		return false, current, nil
 	}
 	if overflowed == 0 && current > 0 {
 		return false, current, nil
